@@ -263,6 +263,16 @@ func c18Run(c *fw.Case) {
 			parts[i] = arg(vals[i])
 		}
 		call, want = "ARRAY("+strings.Join(parts, ", ")+")", vals
+		if n == 0 {
+			// no arguments: an empty array, which is not NULL (a nil slice is `null` for encoding/json)
+			c.Feature("array.no-arguments")
+			extraCheck = func(got any) string {
+				if a, ok := got.([]any); !ok || a == nil {
+					return fmt.Sprintf("ARRAY() is an empty array, got %#v", got)
+				}
+				return ""
+			}
+		}
 	case "concat", "concat.null":
 		n := 1 + c.Intn(4)
 		var sb strings.Builder
